@@ -9,11 +9,31 @@ impl DeclarationElsewhere {
         &self,
         tlds: &'a BTreeMap<String, ToplevelDefinition>,
     ) -> Result<&'a ASN1Type, GrammarError> {
+        self.root_of_chain(tlds, &mut Vec::new())
+    }
+
+    /// Follows a chain of type references to its root, giving up on cyclic chains
+    /// such as `A ::= B`, `B ::= A`.
+    fn root_of_chain<'a, 'b>(
+        &'b self,
+        tlds: &'a BTreeMap<String, ToplevelDefinition>,
+        visited: &mut Vec<&'b str>,
+    ) -> Result<&'a ASN1Type, GrammarError>
+    where
+        'a: 'b,
+    {
+        if visited.contains(&self.identifier.as_str()) {
+            return Err(GrammarError::new(
+                &format!("Cyclic type reference: {}", self.identifier),
+                super::GrammarErrorType::LinkerError,
+            ));
+        }
+        visited.push(&self.identifier);
         match tlds.get(&self.identifier).ok_or_else(|| GrammarError::new(
             &format!("Failed to resolve reference of ElsewhereDefined: {}", self.identifier),
             super::GrammarErrorType::LinkerError
         ))? {
-            ToplevelDefinition::Type(ToplevelTypeDefinition { ty: ASN1Type::ElsewhereDeclaredType(e), .. }) => e.root(tlds),
+            ToplevelDefinition::Type(ToplevelTypeDefinition { ty: ASN1Type::ElsewhereDeclaredType(e), .. }) => e.root_of_chain(tlds, visited),
             ToplevelDefinition::Type(ToplevelTypeDefinition { ty, .. }) => Ok(ty),
             ToplevelDefinition::Class(_) => Err(GrammarError::todo()),
             ToplevelDefinition::Object(_) => Err(GrammarError::todo()),
